@@ -70,7 +70,7 @@ RULE = (
     "abandoned, overlapped (by another stream or a unary call) or ended by a client-side error; hand-written corpus + callbacks "
     "raising (an Exception, swallowed or propagated, or a non-Exception: KeyboardInterrupt, SystemExit, asyncio.CancelledError, a "
     "user-defined BaseException) at EVERY read position of every script shape; the same proxy method repeated before / inside / "
-    "after streams; a non-Exception delivered INSIDE the return path, after each of its events (entry of _return_worker, poll, "
+    "after streams; workers that end with exit status 0 / positive / negative while idle or in use; a non-Exception delivered INSIDE the return path, after each of its events (entry of _return_worker, poll, "
     "_closed read, lock release, transport.close(), exit of _return_worker); unary replies the client cannot validate / decode (its Protocol is one release behind the worker's: unknown "
     "enum member, None for a non-optional, a record with another field, a str for an enum); self-ended servers that poll() cannot see yet (lazy exit) or can; + random "
     "configurations; per configuration every schedule with <= 2 (quick) / 3 (thorough) preemptions "
@@ -318,13 +318,14 @@ def thread_main(ds: DetSched, env: dict[str, Any], cfg: dict[str, Any], jobs: li
             ds.point(what="kill")
             ws = env["world"].workers
             if job[1] < len(ws):
-                ws[job[1]].kill()
+                ws[job[1]].kill(job[2] if len(job) > 2 else -9)
         else:
             raise ValueError(k)
         env["samples"].append(idle_total(pool))
         env["dups"] += idle_twice(pool)
 
 
+EXIT_STATUSES = (0, 0, 1, 3, -9, -15)  # clean exit, crash, signal
 UNARY = ("echo", "noisy", "bad", "phase", "maybe", "rec", "label")
 # unary methods on which the client's protocol is one release behind the worker's: with `bad` the reply arrives intact and
 # fails in the client's own validation / decoding of the value (`rec` always does)
@@ -423,7 +424,7 @@ def do_borrow(ds: DetSched, env: dict[str, Any], cfg: dict[str, Any], ti: int, j
                     elif name == "cancel":
                         sess.cancel()
                     elif name == "kill":
-                        w.kill()
+                        w.kill(op[1] if len(op) > 1 else -9)
                         continue
                     else:
                         raise ValueError(name)
@@ -768,6 +769,12 @@ CORPUS: list[dict[str, Any]] = [
     _c(1, [[B(), ["adv", 3]], [["adv", 3], B()], [["reap"], ["close"]]], timeout=2),
     # a worker that dies while idle / while held
     _c(2, [[B(), ["kill", 0], B()], [B()]]),
+    # exit status as a dimension: a worker that ends CLEANLY (status 0) while idle or in use is as dead as a crashed (3) or
+    # a killed (-9, -15) one
+    _c(2, [[B(), ["kill", 0, 0], B(), B()], [B()]], src="exit-status"),
+    _c(2, [[B(), B(), ["kill", 1, 3]], [B(), ["kill", 0, 0], B()], [B(), B()]], src="exit-status"),
+    _c(1, [[B(0, [["echo"], ["kill", 0]]), B()], [B(), ["kill", 0, -15], B()]], src="exit-status"),
+    _c(2, [[B(0), B(1), ["kill", 0, 0], ["kill", 1, 0], B(0), B(1)], [B(1), B(0)]], keys=K01, src="exit-status"),
     _c(1, [[B(0, [["echo"], ["kill"]]), B()], [B()]]),
     _c(1, [[B(0, [["open", "prod", 2, 0], ["tick"], ["kill"], ["close"]]), B()], [B()]]),
     # spawn failure
@@ -826,7 +833,7 @@ def gen_ops(rng: Any) -> list[list[Any]]:
         if end == "mask":
             ops += [["open", rng.choice(["prod", "prodh"]), 1, rng.choice([0, 1])], ["tick"], ["close"]]
         elif end == "kill":
-            ops += [["kill"], ["close"]]
+            ops += [["kill", rng.choice(EXIT_STATUSES)], ["close"]]
         elif end != "abandon":
             ops.append([end])
             if end == "sendbad" and rng.random() < 0.5:
@@ -868,7 +875,7 @@ def gen_cfg(rng: Any) -> dict[str, Any]:
             elif r < 0.96:
                 jobs.append(["count"])
             else:
-                jobs.append(["kill", rng.choice([0, 0, 1])])
+                jobs.append(["kill", rng.choice([0, 0, 1]), rng.choice(EXIT_STATUSES)])
         threads.append(jobs)
     cfg = _c(maxIdle, threads, keys=keys, timeout=timeout, src="gen", lazy_exit=rng.random() < 0.75)
     if rng.random() < 0.08:
